@@ -43,14 +43,16 @@ open GIV
 
 /-! ### outcome of a call on the operation's own descriptor, classified by the injected fault -/
 
-theorem faultErr_none_cases {f : Fault} (h : faultErr f = none) : f = .none ∨ ∃ k, f = .short k := by
+theorem faultErr_none_cases {f : Fault} (h : faultErr f = none) : f = .none ∨ (∃ k, f = .short k) ∨ f = .shared := by
   cases f <;> simp [faultErr] at h <;> simp
 
 theorem affects_false_of_noerr {f : Fault} (h : faultErr f = none) {s : Sys}
-    (hw : ∀ fd bs, s ≠ .write fd bs) (hp : ∀ fd bs off, s ≠ .pwrite fd bs off) : f.affects s = false := by
-  rcases faultErr_none_cases h with rfl | ⟨k, rfl⟩
+    (hw : ∀ fd bs, s ≠ .write fd bs) (hp : ∀ fd bs off, s ≠ .pwrite fd bs off) (hc : ∀ fd, s ≠ .close fd) :
+    f.affects s = false := by
+  rcases faultErr_none_cases h with rfl | ⟨k, rfl⟩ | rfl
   · cases s <;> rfl
   · cases s <;> first | rfl | (exact absurd rfl (hw _ _)) | (exact absurd rfl (hp _ _ _))
+  · cases s <;> first | rfl | (exact absurd rfl (hc _))
 
 theorem cls_read {w w' : World} {c fd n f r o} (ho : w.fds fd = some o) (hrd : o.rd = true)
     (h : osStep w c (.read fd n) f = some (w', r)) :
@@ -76,7 +78,7 @@ theorem cls_read {w w' : World} {c fd n f r o} (ho : w.fds fd = some o) (hrd : o
 theorem cls_pwrite {w w' : World} {c fd bs off f r o} (ho : w.fds fd = some o) (hwr : o.wr = true)
     (happ : o.app = false) (h : osStep w c (.pwrite fd bs off) f = some (w', r)) :
     (∃ e, faultErr f = some e ∧ r = .err e ∧ w' = w) ∨
-    (f = .none ∧ r = .n bs.length ∧
+    (f.affects (.pwrite fd bs off) = false ∧ r = .n bs.length ∧
       w' = { w with files := upd w.files o.path (some (pwriteAt (w.content o.path) off bs)) }) ∨
     (∃ k, f = .short k ∧ r = .short (bs.take k).length ∧
       w' = { w with files := upd w.files o.path (some (pwriteAt (w.content o.path) off (bs.take k))) }) := by
@@ -84,6 +86,10 @@ theorem cls_pwrite {w w' : World} {c fd bs off f r o} (ho : w.fds fd = some o) (
   simp only [osStep, ho] at h
   cases f with
   | none =>
+    simp only [faultErr] at h; rw [if_neg happ', if_pos hwr] at h
+    simp only [Option.some.injEq, Prod.mk.injEq] at h
+    exact .inr (.inl ⟨rfl, h.2.symm, h.1.symm⟩)
+  | shared =>
     simp only [faultErr] at h; rw [if_neg happ', if_pos hwr] at h
     simp only [Option.some.injEq, Prod.mk.injEq] at h
     exact .inr (.inl ⟨rfl, h.2.symm, h.1.symm⟩)
@@ -97,7 +103,7 @@ theorem cls_pwrite {w w' : World} {c fd bs off f r o} (ho : w.fds fd = some o) (
 theorem cls_write {w w' : World} {c fd bs f r o} (ho : w.fds fd = some o) (hwr : o.wr = true)
     (happ : o.app = false) (h : osStep w c (.write fd bs) f = some (w', r)) :
     (∃ e, faultErr f = some e ∧ r = .err e ∧ w' = w) ∨
-    (f = .none ∧ r = .n bs.length ∧
+    (f.affects (.write fd bs) = false ∧ r = .n bs.length ∧
       w' = { w with files := upd w.files o.path (some (pwriteAt (w.content o.path) o.off bs)),
                     fds := upd w.fds fd (some { o with off := o.off + bs.length }) }) ∨
     (∃ k, f = .short k ∧ r = .short (bs.take k).length ∧
@@ -107,6 +113,10 @@ theorem cls_write {w w' : World} {c fd bs f r o} (ho : w.fds fd = some o) (hwr :
   simp only [osStep, ho] at h
   cases f with
   | none =>
+    simp only [faultErr] at h; rw [if_pos hwr] at h
+    simp only [if_neg happ', Option.some.injEq, Prod.mk.injEq] at h
+    exact .inr (.inl ⟨rfl, h.2.symm, h.1.symm⟩)
+  | shared =>
     simp only [faultErr] at h; rw [if_pos hwr] at h
     simp only [if_neg happ', Option.some.injEq, Prod.mk.injEq] at h
     exact .inr (.inl ⟨rfl, h.2.symm, h.1.symm⟩)
@@ -142,11 +152,24 @@ theorem cls_funlock {w w' : World} {c fd f r o} (ho : w.fds fd = some o)
 theorem cls_close {w w' : World} {c fd f r o} (ho : w.fds fd = some o)
     (h : osStep w c (.close fd) f = some (w', r)) :
     (∃ e, faultErr f = some e ∧ r = .err e ∧ w' = w) ∨
-    (faultErr f = none ∧ r = .ok ∧ w' = closeFd w fd o.path) := by
+    (faultErr f = none ∧ f ≠ .shared ∧ r = .ok ∧ w' = closeFd w fd o.path) ∨
+    (f = .shared ∧ r = .ok ∧ w' = w) := by
   simp only [osStep, ho] at h
   cases hf : faultErr f with
   | some e => simp [hf] at h; exact .inl ⟨e, rfl, h.2.symm, h.1.symm⟩
-  | none => simp [hf] at h; exact .inr ⟨rfl, h.2.symm, h.1.symm⟩
+  | none =>
+    simp only [hf] at h
+    split at h
+    · rename_i hs; simp at h; exact .inr (.inr ⟨hs, h.2.symm, h.1.symm⟩)
+    · rename_i hs; simp at h; exact .inr (.inl ⟨rfl, hs, h.2.symm, h.1.symm⟩)
+
+theorem affects_close_false {f : Fault} (h : faultErr f = none) (hs : f ≠ .shared) (fd : Fd) :
+    f.affects (.close fd) = false := by
+  cases f <;> simp [faultErr] at h <;> first | rfl | exact absurd rfl hs
+
+theorem nextFrame_flt_shared_close {w w' : World} {fr : Frame} {fd tag n r} :
+    (nextFrame w w' fr (.close fd) tag .shared n r).flt = (tag, .shared) :: fr.flt := by
+  simp [nextFrame, Fault.affects]
 
 theorem cls_flock {w w' : World} {c fd k f r o} (ho : w.fds fd = some o) (hacc : (o.rd || o.wr) = true)
     (h : osStep w c (.flock fd k) f = some (w', r)) :
@@ -273,9 +296,13 @@ theorem nextFrame_flt_none {w w' : World} {fr : Frame} {sc tag n r} :
   simp [nextFrame, Fault.affects]
 
 theorem nextFrame_flt_noerr {w w' : World} {fr : Frame} {sc tag f n r} (h : faultErr f = none)
-    (hw : ∀ fd bs, sc ≠ .write fd bs) (hp : ∀ fd bs off, sc ≠ .pwrite fd bs off) :
+    (hw : ∀ fd bs, sc ≠ .write fd bs) (hp : ∀ fd bs off, sc ≠ .pwrite fd bs off) (hc : ∀ fd, sc ≠ .close fd := by intros; simp) :
     (nextFrame w w' fr sc tag f n r).flt = fr.flt := by
-  simp [nextFrame, affects_false_of_noerr h hw hp]
+  simp [nextFrame, affects_false_of_noerr h hw hp hc]
+
+theorem nextFrame_flt_noaffect {w w' : World} {fr : Frame} {sc tag f n r} (h : f.affects sc = false) :
+    (nextFrame w w' fr sc tag f n r).flt = fr.flt := by
+  simp [nextFrame, h]
 
 theorem nextFrame_flt_short_pwrite {w w' : World} {fr : Frame} {fd bs off tag k n r} :
     (nextFrame w w' fr (.pwrite fd bs off) tag (.short k) n r).flt = (tag, .short k) :: fr.flt := by
@@ -285,7 +312,7 @@ theorem nextFrame_flt_short_write {w w' : World} {fr : Frame} {fd bs tag k n r} 
     (nextFrame w w' fr (.write fd bs) tag (.short k) n r).flt = (tag, .short k) :: fr.flt := by
   simp [nextFrame, Fault.affects]
 
-theorem nextFrame_committed_keep {w w' : World} {fr : Frame} {sc tag f n r} (h : releases fr.pc r = false) :
+theorem nextFrame_committed_keep {w w' : World} {fr : Frame} {sc tag f n r} (h : releases fr.pc r f = false) :
     (nextFrame w w' fr sc tag f n r).committed = fr.committed := by
   simp [nextFrame, h]
 
@@ -330,13 +357,13 @@ theorem t_step_tTail {s : State} {w' : World} {c fr p t fd o nw f n r} (cx : TCt
   have hD' : s.w.content od.path = o := by rw [hpath]; exact hD
   rw [transOK_next, nextFrame_h1_eq (by intro fd e; rw [hpc] at e; cases e),
     nextFrame_committed_keep (by simp [hpc, releases]), hpc]
-  rcases cls_pwrite hod hwr happ h with ⟨e, hf, rfl, rfl⟩ | ⟨rfl, rfl, rfl⟩ | ⟨k, rfl, rfl, rfl⟩
-  · rw [nextFrame_flt_err hf]; simp only [advancePc]
+  rcases cls_pwrite hod hwr happ h with ⟨e, hf, rfl, rfl⟩ | ⟨hna, rfl, rfl⟩ | ⟨k, rfl, rfl, rfl⟩
+  · rw [nextFrame_flt_err hf]; simp only [advancePc, finPc_eq]
     exact ⟨hcn, hd, by rw [hD, List.take_length], by simp⟩
-  · rw [nextFrame_flt_none]; simp only [advancePc]
+  · rw [nextFrame_flt_noaffect hna]; simp only [advancePc, finPc_eq]
     refine ⟨hcn, hd, hcl, ht, ?_⟩
     rw [← hpath, content_setFile, hD', pwriteAt_end, if_pos hlen]
-  · rw [nextFrame_flt_short_pwrite]; simp only [advancePc]
+  · rw [nextFrame_flt_short_pwrite]; simp only [advancePc, finPc_eq]
     refine ⟨hcn, hd, ?_, by simp⟩
     rw [← hpath, content_setFile, hD', pwriteAt_end]; simp
 
@@ -361,9 +388,9 @@ theorem t_step_tTailUndo {s : State} {w' : World} {c fr p t fd o f n r} (cx : TC
   rw [transOK_next, nextFrame_h1_eq (by intro fd e; rw [hpc] at e; cases e),
     nextFrame_committed_keep (by simp [hpc, releases]), hpc]
   rcases cls_ftruncate hod hwr h with ⟨e, hf, rfl, rfl⟩ | ⟨hf, rfl, rfl⟩
-  · rw [nextFrame_flt_err hf]; simp only [advancePc]
+  · rw [nextFrame_flt_err hf]; simp only [advancePc, finPc_eq]
     exact ⟨hcn, o, hd, .inr ⟨rfl, fun hn => absurd rfl (hn _ (List.mem_cons_self ..)).1, .inl (by simp)⟩⟩
-  · rw [nextFrame_flt_noerr hf (by intros; simp) (by intros; simp)]; simp only [advancePc]
+  · rw [nextFrame_flt_noerr hf (by intros; simp) (by intros; simp)]; simp only [advancePc, finPc_eq]
     refine ⟨hcn, o, hd, .inr ⟨rfl, fun _ => ?_, .inl hne⟩⟩
     rw [← hpath, content_setFile, resize_of_take hD']
 
@@ -382,22 +409,22 @@ theorem t_step_tBody {s : State} {w' : World} {c fr p t fd o nw sc f n r} (cx : 
   have hrb : rollbackPc fd o = .tRb1 fd o := by simp [rollbackPc, Gen.Lockedfile.tRollback]
   by_cases hge : nw.length ≥ o.length
   · rw [if_pos hge] at hsc; subst hsc
-    rcases cls_pwrite hod hwr happ h with ⟨e, hf, rfl, rfl⟩ | ⟨rfl, rfl, rfl⟩ | ⟨k, rfl, rfl, rfl⟩
-    · rw [nextFrame_flt_err hf]; simp only [advancePc, hrb]; exact ⟨hcn, hd, by simp⟩
-    · rw [nextFrame_flt_none]; simp only [advancePc, if_pos hge]
+    rcases cls_pwrite hod hwr happ h with ⟨e, hf, rfl, rfl⟩ | ⟨hna, rfl, rfl⟩ | ⟨k, rfl, rfl, rfl⟩
+    · rw [nextFrame_flt_err hf]; simp only [advancePc, finPc_eq, hrb]; exact ⟨hcn, hd, by simp⟩
+    · rw [nextFrame_flt_noaffect hna]; simp only [advancePc, finPc_eq, if_pos hge]
       refine ⟨hcn, o, hd, .inl ⟨rfl, ?_, hcl.okTags⟩⟩
       rw [← hpath, content_setFile, body_ge hge hD']; exact ht
-    · rw [nextFrame_flt_short_pwrite]; simp only [advancePc, hrb]; exact ⟨hcn, hd, by simp⟩
+    · rw [nextFrame_flt_short_pwrite]; simp only [advancePc, finPc_eq, hrb]; exact ⟨hcn, hd, by simp⟩
   · rw [if_neg hge] at hsc; subst hsc
     have hlt : nw.length < o.length := by omega
     have hngt : ¬ nw.length > o.length := by omega
     rw [if_neg hngt] at hD'
-    rcases cls_pwrite hod hwr happ h with ⟨e, hf, rfl, rfl⟩ | ⟨rfl, rfl, rfl⟩ | ⟨k, rfl, rfl, rfl⟩
-    · rw [nextFrame_flt_err hf]; simp only [advancePc, hrb]; exact ⟨hcn, hd, by simp⟩
-    · rw [nextFrame_flt_none]; simp only [advancePc, if_neg hge]
+    rcases cls_pwrite hod hwr happ h with ⟨e, hf, rfl, rfl⟩ | ⟨hna, rfl, rfl⟩ | ⟨k, rfl, rfl, rfl⟩
+    · rw [nextFrame_flt_err hf]; simp only [advancePc, finPc_eq, hrb]; exact ⟨hcn, hd, by simp⟩
+    · rw [nextFrame_flt_noaffect hna]; simp only [advancePc, finPc_eq, if_neg hge]
       refine ⟨hcn, hd, hcl, ht, hlt, ?_⟩
       rw [← hpath, content_setFile, hD', pwriteAt_zero]
-    · rw [nextFrame_flt_short_pwrite]; simp only [advancePc, hrb]; exact ⟨hcn, hd, by simp⟩
+    · rw [nextFrame_flt_short_pwrite]; simp only [advancePc, finPc_eq, hrb]; exact ⟨hcn, hd, by simp⟩
 
 theorem t_step_tShrink {s : State} {w' : World} {c fr p t fd o nw f n r} (cx : TCtx s c fr p t)
     (hpc : fr.pc = .tShrink fd o nw) (hr : TransOK s.w fr t)
@@ -411,8 +438,8 @@ theorem t_step_tShrink {s : State} {w' : World} {c fr p t fd o nw f n r} (cx : T
     nextFrame_committed_keep (by simp [hpc, releases]), hpc]
   have hrb : rollbackPc fd o = .tRb1 fd o := by simp [rollbackPc, Gen.Lockedfile.tRollback]
   rcases cls_ftruncate hod hwr h with ⟨e, hf, rfl, rfl⟩ | ⟨hf, rfl, rfl⟩
-  · rw [nextFrame_flt_err hf]; simp only [advancePc, hrb]; exact ⟨hcn, hd, by simp⟩
-  · rw [nextFrame_flt_noerr hf (by intros; simp) (by intros; simp)]; simp only [advancePc]
+  · rw [nextFrame_flt_err hf]; simp only [advancePc, finPc_eq, hrb]; exact ⟨hcn, hd, by simp⟩
+  · rw [nextFrame_flt_noerr hf (by intros; simp) (by intros; simp)]; simp only [advancePc, finPc_eq]
     refine ⟨hcn, o, hd, .inl ⟨rfl, ?_, hcl.okTags⟩⟩
     rw [← hpath, content_setFile, resize_of_take (by rw [hD']; simp)]; exact ht
 
@@ -425,13 +452,13 @@ theorem t_step_tRb1 {s : State} {w' : World} {c fr p t fd o f n r} (cx : TCtx s 
   obtain ⟨hcn, hd, hne⟩ := hr
   rw [transOK_next, nextFrame_h1_eq (by intro fd e; rw [hpc] at e; cases e),
     nextFrame_committed_keep (by simp [hpc, releases]), hpc]
-  rcases cls_pwrite hod hwr happ h with ⟨e, hf, rfl, rfl⟩ | ⟨rfl, rfl, rfl⟩ | ⟨k, rfl, rfl, rfl⟩
-  · rw [nextFrame_flt_err hf]; simp only [advancePc]
+  rcases cls_pwrite hod hwr happ h with ⟨e, hf, rfl, rfl⟩ | ⟨hna, rfl, rfl⟩ | ⟨k, rfl, rfl, rfl⟩
+  · rw [nextFrame_flt_err hf]; simp only [advancePc, finPc_eq]
     exact ⟨hcn, o, hd, .inr ⟨rfl, fun hn => absurd rfl (hn _ (List.mem_cons_self ..)).2.1, .inl (by simp)⟩⟩
-  · rw [nextFrame_flt_none]; simp only [advancePc]
+  · rw [nextFrame_flt_noaffect hna]; simp only [advancePc, finPc_eq]
     refine ⟨hcn, hd, ?_, hne⟩
     rw [← hpath, content_setFile, pwriteAt_zero]; simp
-  · rw [nextFrame_flt_short_pwrite]; simp only [advancePc]
+  · rw [nextFrame_flt_short_pwrite]; simp only [advancePc, finPc_eq]
     exact ⟨hcn, o, hd, .inr ⟨rfl, fun hn => absurd rfl (hn _ (List.mem_cons_self ..)).2.1, .inl (by simp)⟩⟩
 
 theorem t_step_tRb2 {s : State} {w' : World} {c fr p t fd o f n r} (cx : TCtx s c fr p t)
@@ -445,9 +472,9 @@ theorem t_step_tRb2 {s : State} {w' : World} {c fr p t fd o f n r} (cx : TCtx s 
   rw [transOK_next, nextFrame_h1_eq (by intro fd e; rw [hpc] at e; cases e),
     nextFrame_committed_keep (by simp [hpc, releases]), hpc]
   rcases cls_ftruncate hod hwr h with ⟨e, hf, rfl, rfl⟩ | ⟨hf, rfl, rfl⟩
-  · rw [nextFrame_flt_err hf]; simp only [advancePc]
+  · rw [nextFrame_flt_err hf]; simp only [advancePc, finPc_eq]
     exact ⟨hcn, o, hd, .inr ⟨rfl, fun hn => absurd rfl (hn _ (List.mem_cons_self ..)).2.2, .inl (by simp)⟩⟩
-  · rw [nextFrame_flt_noerr hf (by intros; simp) (by intros; simp)]; simp only [advancePc]
+  · rw [nextFrame_flt_noerr hf (by intros; simp) (by intros; simp)]; simp only [advancePc, finPc_eq]
     refine ⟨hcn, o, hd, .inr ⟨rfl, fun _ => ?_, .inl hne⟩⟩
     rw [← hpath, content_setFile, resize_of_take hD']
 
@@ -456,7 +483,7 @@ theorem nextFrame_h1_lock {w w' : World} {fr : Frame} {sc tag f n fd} (h : fr.pc
     (nextFrame w w' fr sc tag f n .ok).h1 = w'.hist fr.op.path := by
   simp [nextFrame, h]
 
-theorem nextFrame_committed_release {w w' : World} {fr : Frame} {sc tag f n r} (h : releases fr.pc r = true)
+theorem nextFrame_committed_release {w w' : World} {fr : Frame} {sc tag f n r} (h : releases fr.pc r f = true)
     (hex : lockMode fr.op.flag = .ex) :
     (nextFrame w w' fr sc tag f n r).committed = some (w.content fr.op.path) := by
   simp [nextFrame, h, hex]
@@ -472,9 +499,9 @@ theorem t_step_tRead {s : State} {w' : World} {c fr p t fd acc f n r} (cx : TCtx
   rw [transOK_next, nextFrame_h1_eq (by intro fd e; rw [hpc] at e; cases e),
     nextFrame_committed_keep (by simp [hpc, releases]), hpc]
   rcases cls_read hod hrd h with ⟨e, hf, rfl, rfl⟩ | ⟨hf, ⟨hlt, rfl, rfl⟩ | ⟨hge, rfl, rfl⟩⟩
-  · rw [nextFrame_flt_err hf]; simp only [advancePc]
+  · rw [nextFrame_flt_err hf]; simp only [advancePc, finPc_eq]
     exact ⟨hcn, _, hd, .inr ⟨rfl, fun _ => rfl, .inl (by simp)⟩⟩
-  · rw [nextFrame_flt_noerr hf (by intros; simp) (by intros; simp)]; simp only [advancePc]
+  · rw [nextFrame_flt_noerr hf (by intros; simp) (by intros; simp)]; simp only [advancePc, finPc_eq]
     refine ⟨hcn, hd, hcl, _, upd_same _ _ _, ?_, ?_⟩
     · show acc ++ _ = List.take (acc ++ _).length (s.w.content fr.op.path)
       rw [List.length_append, List.take_add, ← hacc, hpath, hoff]
@@ -516,11 +543,11 @@ theorem t_step_open {s : State} {w' : World} {c fr p t f n r} (cx : TCtx s c fr 
   have hcr : fCreat (openFlags fr.op.flag) = true := by rw [cx.flag]; decide
   have hex : fExcl (openFlags fr.op.flag) = false := by rw [cx.flag]; decide
   rcases cls_open hcr hex h with ⟨e, hf, rfl, rfl⟩ | ⟨hf, rfl, rfl⟩
-  · simp only [advancePc]
+  · simp only [advancePc, finPc_eq]
     exact ⟨⟨fun v hv => (by rw [hcn] at hv; cases hv), fun hne => absurd hh.1 hne⟩,
       fun v hv => (by rw [hcn] at hv; cases hv)⟩
   · rw [nextFrame_flt_noerr hf (by intros; simp) (by intros; simp)]
-    simp only [advancePc, Gen.Lockedfile.truncAfterLock, Bool.not_true, Bool.and_false, Bool.false_eq_true, if_false]
+    simp only [advancePc, finPc_eq, Gen.Lockedfile.truncAfterLock, Bool.not_true, Bool.and_false, Bool.false_eq_true, if_false]
     exact ⟨hcn, hcl, _, upd_same _ _ _, rfl⟩
 
 theorem t_step_lock {s : State} {w' : World} {c fr p t fd f n r} (cx : TCtx s c fr p t)
@@ -547,14 +574,14 @@ theorem t_step_lock {s : State} {w' : World} {c fr p t fd f n r} (cx : TCtx s c 
       · rfl
       · exact hcl x hx
     have : advancePc fr.op (.lock fd) n (.err e) = .lock fd ∨ advancePc fr.op (.lock fd) n (.err e) = .close fd .err false := by
-      simp only [advancePc]; cases e <;> simp [Gen.Lockedfile.retriesEINTR]
+      simp only [advancePc, finPc_eq]; cases e <;> simp [Gen.Lockedfile.retriesEINTR]
     rcases this with hp | hp <;> rw [hp]
     · exact ⟨hcn, hcl', _, hod, hoff⟩
     · exact ⟨⟨fun v hv => (by rw [hcn] at hv; cases hv), fun hne => absurd hh.1 hne⟩,
         fun v hv => (by rw [hcn] at hv; cases hv)⟩
   · rw [nextFrame_flt_noerr hf (by intros; simp) (by intros; simp), nextFrame_h1_lock hpc]
     have hp : advancePc fr.op (.lock fd) n .ok = .tRead fd [] := by
-      simp only [advancePc, afterLock, cx.hop, Op.flag, afterOpen]
+      simp only [advancePc, finPc_eq, afterLock, cx.hop, Op.flag, afterOpen, finPc_eq]
       have : wantsTrunc Gen.Lockedfile.flagsEdit = false := by decide
       simp [this]
     rw [hp]
@@ -586,11 +613,11 @@ theorem t_step_unlock {s : State} {w' : World} {c fr p t fd ret f n r} (cx : TCt
   · rw [nextFrame_flt_err hf, nextFrame_committed_keep (by simp [hpc, releases])]
     have : advancePc fr.op (.unlock fd ret) n (.err e) = .unlock fd ret ∨
         advancePc fr.op (.unlock fd ret) n (.err e) = .close fd ret true := by
-      simp only [advancePc, hcr]; cases e <;> simp [Gen.Lockedfile.retriesEINTR]
+      simp only [advancePc, finPc_eq, hcr]; cases e <;> simp [Gen.Lockedfile.retriesEINTR]
     rcases this with hp | hp <;> rw [hp] <;> exact ⟨hcn, hfin.mono _ (.inl rfl)⟩
   · rw [nextFrame_flt_noerr hf (by intros; simp) (by intros; simp),
       nextFrame_committed_release (by simp [hpc, releases]) hexm]
-    simp only [advancePc]
+    simp only [advancePc, finPc_eq]
     refine ⟨⟨fun v hv => (by cases hv; exact hfin), fun _ _ => rfl⟩, fun v hv => ?_⟩
     cases hv
     have hl := (((cx.hi.clients c).frame fr cx.hcur).fd fd (by simp [hpc, Pc.fd?])).2.2
@@ -609,21 +636,21 @@ theorem t_step_close {s : State} {w' : World} {c fr p t fd ret b f n r} (cx : TC
   have hexm : lockMode fr.op.flag = .ex := by rw [cx.flag]; decide
   have hcr : closeRet fr.op ret true = ret := by simp [closeRet, cx.hop, reportsCloseErr]
   rw [transOK_next, nextFrame_h1_eq (by intro fd e; rw [hpc] at e; cases e), hpc]
-  rcases cls_close hod h with ⟨e, hf, rfl, rfl⟩ | ⟨hf, rfl, rfl⟩
+  rcases cls_close hod h with ⟨e, hf, rfl, rfl⟩ | ⟨hf, hns, rfl, rfl⟩ | ⟨rfl, rfl, rfl⟩
   · rw [nextFrame_flt_err hf, nextFrame_committed_keep (by simp [hpc, releases])]
-    simp only [advancePc, hcr]
+    simp only [advancePc, finPc_eq, hcr]
     cases b
     · exact ⟨hr.1.mono _ (.inr rfl), hr.2⟩
     · obtain ⟨hcn, _⟩ := hr
       exact ⟨⟨fun v hv => (by rw [hcn] at hv; cases hv),
         fun _ hn => absurd rfl (hn _ (List.mem_cons_self ..)).2⟩, fun v hv => (by rw [hcn] at hv; cases hv)⟩
-  · rw [nextFrame_flt_noerr hf (by intros; simp) (by intros; simp)]
-    simp only [advancePc]
+  · rw [nextFrame_flt_noaffect (affects_close_false hf hns fd)]
+    simp only [advancePc, finPc_eq]
     cases b
     · rw [nextFrame_committed_keep (by simp [hpc, releases])]
       exact ⟨hr.1, hr.2.mono (osStep_hist_suffix h _)⟩
     · obtain ⟨hcn, hfin⟩ := hr
-      rw [nextFrame_committed_release (by simp [hpc, releases]) hexm]
+      rw [nextFrame_committed_release (by simp [hpc, releases, hns]) hexm]
       refine ⟨⟨fun v hv => (by cases hv; exact hfin), fun _ _ => rfl⟩, fun v hv => ?_⟩
       cases hv
       have hl := (((cx.hi.clients c).frame fr cx.hcur).fd fd (by simp [hpc, Pc.fd?])).2.2
@@ -632,6 +659,14 @@ theorem t_step_close {s : State} {w' : World} {c fr p t fd ret b f n r} (cx : TC
       simp only [HistOK, hpc, Pc.preLock, Pc.locked, Bool.false_eq_true, if_false, if_true] at hh
       rw [closeFd_hist, hpath, dropLock_pushes hl, hh.1]
       exact List.suffix_refl _
+  · -- the description is shared: close(2) succeeds and releases nothing
+    rw [nextFrame_flt_shared_close, nextFrame_committed_keep (by cases b <;> simp [hpc, releases])]
+    simp only [advancePc, finPc_eq]
+    cases b
+    · exact ⟨hr.1.mono _ (.inr rfl), hr.2⟩
+    · obtain ⟨hcn, _⟩ := hr
+      exact ⟨⟨fun v hv => (by rw [hcn] at hv; cases hv),
+        fun _ hn => absurd rfl (hn _ (List.mem_cons_self ..)).2⟩, fun v hv => (by rw [hcn] at hv; cases hv)⟩
 
 
 /-- The running Transform's own step keeps its invariant (one lemma per control point above). -/
